@@ -2831,7 +2831,9 @@ class DateTime(Argument):
                 "You may find amp.utc useful."
             )
 
-        minutesOffset = (offset.days * 86400 + offset.seconds) // 60
+        # Truncate towards zero: flooring would turn an offset between -24:00
+        # and -23:59 into "-24:00", which is not a valid UTC offset.
+        minutesOffset = int((offset.days * 86400 + offset.seconds) / 60)
 
         if minutesOffset > 0:
             sign = "+"
